@@ -42,7 +42,7 @@ class TLCResult:
     def exported(self, tag="EXP"):
         """JSON records printed by the spec as PrintT(<<tag, ToJson(rec)>>)."""
         res = []
-        for line in self.out.splitlines():
+        for line in self.printed():
             if not line.startswith('<<"' + tag + '", "'):
                 continue
             m = _EXP.match(line)
@@ -51,10 +51,33 @@ class TLCResult:
             res.append(json.loads(json.loads('"' + m.group(2) + '"')))
         return res
 
+    def printed(self):
+        """All values printed with PrintT, one normalised string each.  TLC pretty-prints long
+        values over several lines; lines are re-assembled by bracket matching."""
+        if getattr(self, "_printed", None) is None:
+            vals, cur, depth = [], None, 0
+            for ln in self.out.splitlines():
+                if cur is None:
+                    if not ln.startswith("<<"):
+                        continue
+                    cur, depth = [], 0
+                cur.append(ln.strip())
+                depth += ln.count("<<") - ln.count(">>")
+                if depth <= 0:
+                    v = " ".join(cur)
+                    v = re.sub(r"<<\s+", "<<", v)
+                    v = re.sub(r"\s+>>", ">>", v)
+                    v = re.sub(r"\{\s+", "{", v)
+                    v = re.sub(r"\s+\}", "}", v)
+                    vals.append(v)
+                    cur = None
+            self._printed = vals
+        return self._printed
+
     def tuples(self, tag):
-        """Lines printed as PrintT(<<tag, ...>>) -- returned as raw strings after the tag."""
+        """Values printed as PrintT(<<tag, ...>>) -- returned as strings after the tag."""
         pre = '<<"' + tag + '", '
-        return [ln[len(pre):-2] for ln in self.out.splitlines() if ln.startswith(pre) and ln.endswith(">>")]
+        return [v[len(pre):-2] for v in self.printed() if v.startswith(pre) and v.endswith(">>")]
 
 
 def stage_specs(dest=None):
